@@ -135,7 +135,7 @@ def battery(quick=True):
             other = measure(ref, unk, ref_rand, unk_rand, cen.iloc[sigma].reset_index(drop=True))
             return same_results(base, other, perm=sigma)
         attempt("patch_labels[centres permuted: samples permute accordingly, data and covariance unchanged]", relabel)
-        for c in ((3.7,) if quick else (3.7, 1e-3, 250.0)):
+        for c in ((3.7, 1e-14) if quick else (3.7, 1e-3, 250.0, 1e-14, 1e12)):
             attempt(f"weight_scale[unknown x {c}]", lambda c=c: same_results(base, measure(ref, unk.assign(w=unk.w * c), ref_rand, unk_rand, cen)))
             attempt(f"weight_scale[reference x {c}]", lambda c=c: same_results(base, measure(ref.assign(w=ref.w * c), unk, ref_rand, unk_rand, cen)))
 
